@@ -1133,6 +1133,8 @@ class Model:
                 except TypeError:
                     return _SortedView(seq, None)
             return _SortedView(seq, key)
+        if name in ('all', 'any', 'sum', 'sorted') and args and isinstance(args[0], Opaque):
+            return Opaque(f'{name}(⊤)')
         if name in ('all', 'any'):
             seq = interp.iterate(args[0], node)
             res = name == 'all'
